@@ -85,6 +85,8 @@ class SimRaw(io.RawIOBase):
         b[: len(chunk)] = chunk
         self._pos += len(chunk)
         self._stats["logical"]["bytes"] = self._stats["logical"].get("bytes", 0) + len(chunk)
+        self._stats["logical"]["newlines_served"] = \
+            self._stats["logical"].get("newlines_served", 0) + chunk.count(b"\n")
         return len(chunk)
 
     def seek(self, offset, whence=0):
@@ -280,6 +282,7 @@ class StepClock:
     def __init__(self):
         self.count = 0
         self.budget = None
+        self.budget_fn = None
         self._orig = None
 
     def install(self):
@@ -294,8 +297,13 @@ class StepClock:
         def counted_new(cls, *args, **kwargs):
             clock.count += 1
             if clock.budget is not None and clock.count > clock.budget:
-                clock.budget = None  # raise once
-                raise StepBudgetExceeded(clock.count)
+                # the budget may grow with the input actually consumed (files re-opened through
+                # recursive INCLUDEs deliver more lines than the main file has)
+                if clock.budget_fn is not None and clock.count <= clock.budget_fn():
+                    clock.budget = clock.budget_fn()
+                else:
+                    clock.budget = None  # raise once
+                    raise StepBudgetExceeded(clock.count)
             return func(cls, *args, **kwargs)
 
         counted_new.__wrapped__ = func
@@ -310,9 +318,10 @@ class StepClock:
             utils.Base.__new__ = self._orig
             self._orig = None
 
-    def start(self, budget):
+    def start(self, budget, budget_fn=None):
         self.count = 0
         self.budget = budget
+        self.budget_fn = budget_fn
 
 
 # --------------------------------------------------------------------------- logging
